@@ -51,6 +51,27 @@ fn spec_body(m: &M) -> Option<(u8, Vec<u8>)> {
     })
 }
 
+/// may the conversion to a payload refuse this message?  AMF0 limits (strings and names at most 65535 bytes, names
+/// not empty, nesting at most 128), chunk sizes above 2^31-1, user-control events without their fields
+fn refusable(m: &M) -> bool {
+    fn bad(v: &V, depth: usize) -> bool {
+        match v {
+            V::Str(s) => s.len() > 65535,
+            V::Object(ps) => depth + 1 > 128 || ps.iter().any(|(k, x)| k.is_empty() || k.len() > 65535 || bad(x, depth + 1)),
+            V::Array(xs) => depth + 1 > 128 || xs.iter().any(|x| bad(x, depth + 1)),
+            _ => false,
+        }
+    }
+    match m {
+        M::Amf0Command { command_name, command_object, additional_arguments, .. } =>
+            command_name.len() > 65535 || bad(&from_lib(command_object), 0) || additional_arguments.iter().any(|v| bad(&from_lib(v), 0)),
+        M::Amf0Data { values } => values.iter().any(|v| bad(&from_lib(v), 0)),
+        M::SetChunkSize { size } => *size > 0x7FFF_FFFF,
+        M::UserControl { .. } => spec_body(m).is_none(),
+        _ => false,
+    }
+}
+
 fn msg_eq(a: &M, b: &M) -> bool { show_msg(a) == show_msg(b) }
 
 pub fn op(toks: &[&str]) -> Option<String> {
@@ -76,7 +97,11 @@ pub fn op(toks: &[&str]) -> Option<String> {
             let _ = &want;
             let m2 = parse_msg(mtext)?;
             match MessagePayload::from_rtmp_message(m, RtmpTimestamp::new(ts), msid) {
-                Err(e) => format!("! ok refused {}", se_kind(&e)),
+                Err(e) => {
+                    // a refusal is legitimate only for what the documented limits exclude, judged on the message alone
+                    if refusable(&m2) { format!("! ok refused {}", se_kind(&e)) }
+                    else { format!("! FAIL well-formed-message-refused {}", se_kind(&e)) }
+                }
                 Ok(p) => {
                     if p.timestamp.value != ts || p.message_stream_id != msid { return Some("! FAIL payload-timestamp-or-stream-id-changed".into()); }
                     if let Some((t, b)) = spec { if p.type_id != t || p.data[..] != b[..] { return Some(format!("! FAIL layout-differs-from-specification type={} body={}", p.type_id, show_bytes(&p.data))); } }
